@@ -459,6 +459,62 @@ func (e *Engine) lemmaObligations(id string, keys []string) []*Obligation {
 	}
 	sort.Strings(pl)
 	for _, pkg := range pl {
+		for _, th := range e.cs.Theorems[pkg] {
+			if len(th.Props) > 0 && !hasProp(th.Props, id) {
+				continue
+			}
+			e.newRun(false)
+			x := &Exec{e: e, maxPaths: 10, loops: map[*ssaFunction]map[*ssaBlock]*Loop{}, pkg: pkg}
+			p := x.newPath()
+			ctx := &EvalCtx{x: x, p: p, pkg: pkg}
+			// forall xs :: H1 && ... && Hn ==> G  is skolemised here: constants for xs, one assertion per Hi
+			body := th.E
+			if q, ok := body.(*EQuant); ok && q.Forall {
+				vars := map[string]Val{}
+				for _, qv := range q.Vars {
+					srt, t := ctx.specSort(qv.Type)
+					vars[qv.Name] = Val{K: KScalar, T: t, S: e.fresh("sk_"+qv.Name, srt), Sort: srt}
+				}
+				ctx = ctx.with(vars)
+				body = q.Body
+			}
+			var hyps []Expr
+			if b, ok := body.(*EBinary); ok && b.Op == "==>" {
+				var flat func(x Expr)
+				flat = func(x Expr) {
+					if bb, ok := x.(*EBinary); ok && bb.Op == "&&" {
+						flat(bb.L)
+						flat(bb.R)
+						return
+					}
+					hyps = append(hyps, x)
+				}
+				flat(b.L)
+				body = b.R
+			}
+			bad := false
+			for _, h := range hyps {
+				hs, err := ctx.EvalBool(h)
+				if err != nil {
+					fmt.Fprintln(os.Stderr, "theorem", th.Label, err)
+					bad = true
+					break
+				}
+				p.assume(hs)
+			}
+			if bad {
+				continue
+			}
+			goal, err := ctx.EvalBool(body)
+			if err != nil {
+				fmt.Fprintln(os.Stderr, "theorem", th.Label, err)
+				continue
+			}
+			ob := &Obligation{Name: shortTypeKey(pkg) + ".theorem#" + th.Label, Func: "theorem", Kind: "theorem", Goal: goal, Src: th.Src}
+			ob.Assumes = append([]string(nil), p.assumes...)
+			ob.Script = e.script(ob)
+			out = append(out, ob)
+		}
 		for _, lem := range e.cs.Lemmas[pkg] {
 			if len(lem.Props) > 0 && !hasProp(lem.Props, id) {
 				continue
